@@ -509,7 +509,7 @@ pub fn run(ctx: &Ctx) -> Report {
         eprintln!("C09 watchdog: run exceeded {limit} s; inconclusive");
         std::process::exit(2);
     });
-    let v = search(ctx, "structured", ctx.tier.pick(8_000, 200_000), case_strategy, |c: &Case, st| {
+    let v = search(ctx, "structured", ctx.tier.pick(16_000, 200_000), case_strategy, |c: &Case, st| {
         st.eval();
         if st.wants_sample() && !c.corrupt.is_empty() && st.evaluations % 23 == 2 {
             st.sample(json!({"corruptions": c.corrupt, "tables": c.db.tables.iter().map(|t| t.name.clone()).collect::<Vec<_>>()}));
@@ -517,7 +517,7 @@ pub fn run(ctx: &Ctx) -> Report {
         check_case(c, st, true)
     }, &mut st);
     rep.push(v);
-    let v = search(ctx, "raw", ctx.tier.pick(3_000, 100_000), raw_strategy, |c: &RawCase, st| {
+    let v = search(ctx, "raw", ctx.tier.pick(6_000, 100_000), raw_strategy, |c: &RawCase, st| {
         st.eval();
         check_raw(c, st, true)
     }, &mut st);
@@ -525,7 +525,7 @@ pub fn run(ctx: &Ctx) -> Report {
     // the FFI layer on files from the same generator (plus the two shapes its
     // code is most exposed to: a table stream that is a storage, a creation
     // time beyond year 9999)
-    let v = search(ctx, "ffi", ctx.tier.pick(320, 5_000), || {
+    let v = search(ctx, "ffi", ctx.tier.pick(400, 5_000), || {
         (case_strategy(), prop_oneof![3 => Just(None), 1 => any::<u16>().prop_map(|s| Some(Corrupt::ToStorage { stream: s })), 1 => Just(Some(Corrupt::Prop { kind: 13, which: 0 }))]).prop_map(|(mut c, extra)| {
             if let Some(x) = extra {
                 c.corrupt.push(x);
